@@ -1,6 +1,7 @@
 """C01 (and the parts C05/C13/C15 reuse): the standard sampler's live set."""
 from pyvc.contracts import contract
 from .shapes import LP_ROW, LP_ARR, NS, EV
+from .c02_evidence import ev_inv
 
 # ---------------------------------------------------------------- LiveInv
 # The class invariant of the standard sampler between iterations.
@@ -30,7 +31,7 @@ LIVE_INV = [
     "self.nested_samples[i]['it'] <= i and "
     "self.state.logLs[self.nested_samples[i]['it']] < "
     "self.nested_samples[i]['logL'])",
-]
+] + ev_inv("self.state")
 
 contract(
     NS, "NestedSampler.insert_live_point", props=["C01", "C13"],
@@ -52,32 +53,6 @@ contract(
         "old(self.live_points)[i + 1]))",
         "forall(i, result + 1, self.nlive, row_eq(self.live_points[i], "
         "old(self.live_points)[i]))",
-    ],
-)
-
-# evidence-state update as far as C01/C13 need it (C02 proves the
-# quadrature; this is the same contract, verified against the same body)
-contract(
-    EV, "_NSIntegralState.increment", props=["C01", "C02", "C13", "C05"],
-    params={"logL": "Real", "nlive": "Opt(Int)"},
-    requires=["implies(nlive is None, self.base_nlive >= 1)",
-              "implies(nlive is not None, nlive >= 1)",
-              "len(self.logLs) >= 1", "len(self.info) >= 1",
-              "len(self.log_vols) == len(self.logLs)"],
-    modifies=["self.nlive", "self.logZ", "self.info", "self.logw",
-              "self.logLs", "self.log_vols", "self.gradients"],
-    ensures=[
-        "len(self.logLs) == old(len(self.logLs)) + 1",
-        "self.logLs[len(self.logLs) - 1] == logL",
-        "forall(i, 0, old(len(self.logLs)), "
-        "self.logLs[i] == old(self.logLs)[i])",
-        "len(self.nlive) == old(len(self.nlive)) + 1",
-        "self.nlive[len(self.nlive) - 1] == "
-        "(old(self.base_nlive) if nlive is None else nlive)",
-        "forall(i, 0, old(len(self.nlive)), "
-        "self.nlive[i] == old(self.nlive)[i])",
-        "len(self.log_vols) == len(self.logLs)",
-        "len(self.info) >= 1",
     ],
 )
 
@@ -143,9 +118,6 @@ CONSUME_MOD = [
 contract(
     NS, "NestedSampler.consume_sample", props=["C01", "C13", "C15", "C05"],
     requires=LIVE_INV + [
-        "self.state.base_nlive >= 1",
-        "len(self.state.info) >= 1",
-        "len(self.state.log_vols) == len(self.state.logLs)",
         "self.block_iteration >= 0",
     ],
     modifies=CONSUME_MOD,
@@ -233,44 +205,27 @@ contract(
 )
 
 contract(
-    EV, "_NSIntegralState.finalise", props=["C01", "C02", "C05", "C15"],
-    trusted=True, trusted_reason="quadrature value proved under C02; here "
-    "only the frame is used",
-    modifies=["self.logZ"], returns="Real",
-)
-
-contract(
     NS, "NestedSampler.finalise", props=["C01", "C15", "C05"],
-    requires=LIVE_INV + [
-        "self.state.base_nlive >= 1",
-        "len(self.state.info) >= 1",
-        "len(self.state.log_vols) == len(self.state.logLs)",
-        "len(self.state.nlive) == len(self.nested_samples)",
-    ],
+    requires=LIVE_INV,
     modifies=["self.state", "self.nested_samples", "self.live_points",
               "self.finalised", "self.block_acceptance",
               "self.block_iteration", "self.proposal"],
     loops={
         0: {"index": "k",
-            "inv": [
+            "inv": ev_inv("self.state") + [
                 "len(self.nested_samples) == old(len(self.nested_samples)) + k",
                 "len(self.state.logLs) == old(len(self.state.logLs)) + k",
                 "len(self.state.nlive) == old(len(self.state.nlive)) + k",
-                "len(self.state.info) >= 1",
-                "len(self.state.log_vols) == len(self.state.logLs)",
-                "self.state.base_nlive >= 1",
                 "forall(j, 0, old(len(self.nested_samples)), row_eq("
                 "self.nested_samples[j], old(self.nested_samples)[j]))",
-                "forall(j, 0, k, row_eq(self.nested_samples["
-                "old(len(self.nested_samples)) + j], "
-                "old(self.live_points)[j]))",
+                "forall(p, old(len(self.nested_samples)), old(len(self.nested_samples)) + k, row_eq(self.nested_samples[p], "
+                "old(self.live_points)[p - old(len(self.nested_samples))]))",
                 "forall(j, 0, old(len(self.state.logLs)), "
                 "self.state.logLs[j] == old(self.state.logLs)[j])",
-                "forall(j, 0, k, self.state.logLs["
-                "old(len(self.state.logLs)) + j] == "
-                "old(self.live_points)[j]['logL'])",
-                "forall(j, 0, k, self.state.nlive["
-                "old(len(self.state.nlive)) + j] == self.nlive - j)",
+                "forall(p, old(len(self.state.logLs)), old(len(self.state.logLs)) + k, self.state.logLs[p] == "
+                "old(self.live_points)[p - old(len(self.state.logLs))]['logL'])",
+                "forall(p, old(len(self.state.nlive)), old(len(self.state.nlive)) + k, self.state.nlive[p] == "
+                "self.nlive - (p - old(len(self.state.nlive))))",
                 "forall(j, 0, old(len(self.state.nlive)), "
                 "self.state.nlive[j] == old(self.state.nlive)[j])",
             ],
@@ -282,14 +237,14 @@ contract(
         "self.nlive",
         "forall(j, 0, old(len(self.nested_samples)), row_eq("
         "self.nested_samples[j], old(self.nested_samples)[j]))",
-        "forall(j, 0, self.nlive, row_eq(self.nested_samples["
-        "old(len(self.nested_samples)) + j], old(self.live_points)[j]))",
+        "forall(p, old(len(self.nested_samples)), old(len(self.nested_samples)) + self.nlive, row_eq(self.nested_samples[p], "
+        "old(self.live_points)[p - old(len(self.nested_samples))]))",
         "len(self.state.logLs) == len(self.nested_samples) + 1",
-        "forall(j, 0, self.nlive, self.state.logLs["
-        "old(len(self.state.logLs)) + j] == old(self.live_points)[j]['logL'])",
+        "forall(p, old(len(self.state.logLs)), old(len(self.state.logLs)) + self.nlive, self.state.logLs[p] == "
+        "old(self.live_points)[p - old(len(self.state.logLs))]['logL'])",
         # with the shrinking live-count schedule nlive, nlive-1, ..., 1
-        "forall(j, 0, self.nlive, self.state.nlive["
-        "old(len(self.state.nlive)) + j] == self.nlive - j)",
+        "forall(p, old(len(self.state.nlive)), old(len(self.state.nlive)) + self.nlive, self.state.nlive[p] == "
+        "self.nlive - (p - old(len(self.state.nlive))))",
         "sorted_by(self.nested_samples, 'logL')",
         "self.finalised",
         "self.live_points is None",
